@@ -24,7 +24,7 @@ def run(ctx):
     ctx.assumptions += ['the message-size limit that forces the adaptive page size down is imitated by a kv.Base wrapper that fails range reads '
                         'asking for more than 200 items', 'regions saved after the last successful flush/close may be lost by a process stop']
     ctx.mc('storage', 'Load', 'MC_Load.cfg', timeout=600)
-    seeds = [ctx.seed] if q else [ctx.seed + k for k in range(2)]
+    seeds = [ctx.seed] if q else [ctx.seed + k for k in range(6)]
     for sd in seeds:
         tr = os.path.join(ctx.dir, 'load_%d.ndjson' % sd)
         vlib.run_harness(['storage', 'load', 'out=' + tr, 'seed=%d' % sd, 'tier=' + ctx.tier], timeout=3000)
